@@ -30,31 +30,31 @@ check('C03', level='model_checking', steps=[dict(src='drv/local.c', variant='pla
       mc_keys=dict(states='ref_states', transitions='ref_transitions'))
 
 check('C04', level='exploration', steps=[dict(src='drv/c04.c', variant='plain', name='domain')],
-      rule=("every string is generated once per layer (L1 odometer over 8 classes; L2 base x position x byte; L3 length generators); "
+      rule=("every string is generated once per layer (L1 odometer over 8 classes; L2 base x position x byte; L3 length generators incl. the label-count sweep n = 1..140 equal labels of 1..63 characters); "
             "non-trivial = L1 strings of >= 2 bytes containing a dot or hyphen (the structure rules are exercised); counted by the driver"),
       deadline=dict(quick=240, thorough=3000))
 
 check('C05', level='exploration', steps=[dict(src='drv/c05.c', variant='plain', name='literal')],
-      rule=("each generator emits every case once (token odometers 'raw' and 'in', structured v4/v6 products, byte-position sweeps); "
+      rule=("each generator emits every case once (token odometers 'raw' and 'in', structured v4/v6 products with 27 group spellings, byte-position sweeps), every literal behind 3 local-part shapes, the part validators also with 14 tails after the end pointer; "
             "non-trivial = odometer strings that start with '[' (raw) or contain ':' or '.' (bracket content) and have >= 3 bytes; counted by the driver"),
       deadline=dict(quick=240, thorough=3000))
 
 check('C01', level='exploration', steps=[dict(src='drv/c01.c', variant='plain', name='email')],
-      rule=("each generator emits every case once (L1 odometer over 12 classes, L2 templates x bytes, L3 length/placement generators), every case "
+      rule=("each generator emits every case once (L1 odometer over 12 classes, L2 templates x bytes, L3 length/placement generators, 'huge' lengths k*2^8+d and k*2^16+d - thorough also 2^24, 2^31, 2^32 - where a narrow counter wraps), every case "
             "is run in 4 modes x tld_check off/on; non-trivial = L1 strings containing an '@' with bytes on both sides; counted by the driver"),
       deadline=dict(quick=240, thorough=3000))
 
 import c11gen
 check('C11', level='exploration', steps=[dict(src='drv/c11.c', variant='plain', name='table'),
                                            dict(kind='py', name='generators', fn=c11gen.run)],
-      rule=("finite artefact enumerated completely: every CSV row (5 case variants), every table entry, every 1-3 character label, every one-edit "
+      rule=("finite artefact enumerated completely: every CSV row (5 case variants, through is_tld and through the four address validators), every table entry, every 1-3 character label, every one-edit "
             "neighbour / proper prefix / proper suffix of every row, every line of tld-domains.txt and raw.csv, every line of the regenerated files; "
             "non-trivial = row look-ups + file rows + generated lines compared (each distinct by construction)"),
       deadline=dict(quick=300, thorough=600))
 
 check('C07', level='exploration', steps=[dict(src='drv/tld.c', variant='plain', name='tld')],
       rule=("every CSV row x 5 case variants x 0-4 preceding labels drawn from 8 label shapes, every near miss of every row (proper prefixes/suffixes, deletions, "
-            "substitutions and insertions over [a-z0-9-]) after two different prefixes, every 1-3 character last label, every U-label of raw.csv in mode 6531; "
+            "substitutions and insertions over [a-z0-9-]) after two different prefixes, every 1-3 character last label, every U-label of raw.csv in mode 6531, every row of the library's own tld_list as last label; "
             "distinct_nontrivial counts only the lower-/upper-case row spellings x prefixes, which are pairwise distinct by construction (near misses may repeat)"),
       deadline=dict(quick=300, thorough=1200))
 check('C09', level='exploration', steps=[dict(src='drv/tld.c', variant='plain', defs=['-DC09'], name='reserved')],
@@ -65,13 +65,13 @@ check('C09', level='exploration', steps=[dict(src='drv/tld.c', variant='plain', 
 
 check('C08', level='exploration', steps=[dict(src='drv/c08.c', variant='plain', name='policy')],
       rule=("complete product: 2048 masks x 4 modes x tld_check on/off x {two real addresses per class present in punycode.csv, 3 reserved names, unlisted TLD, single label, "
-            "IPv4/IPv6 literal, 4 syntactically invalid addresses} + with tld on a caller-installed callback returning each class 1..9, 0 and each negative code; "
+            "IPv4/IPv6 literal, 4 syntactically invalid addresses} + with tld on a caller-installed callback returning each class 1..9, 0 and each negative code; plus the 'veto' product: 7 address corpora x 14 masks (0, all, default, each single bit) x tld on/off x 4 modes; "
             "every tuple is distinct by construction and non-trivial (it exercises one arm of the policy switch with one mask)"),
       deadline=dict(quick=300, thorough=600))
 
 check('C10', level='exploration', steps=[dict(src='drv/c10.c', variant='plain', name='idn')],
       rule=("domains are generated once each: all labels of 1-2 (thorough 1-3) symbols over 35 symbols (letters/digits of Cyrillic, Greek, Han, Hangul, Arabic, Hebrew, Devanagari, "
-            "Latin-1 + a,1,-) in 1-3 label domains x 4 suffixes, every IDN TLD row in U- and A-form, all ASCII strings over {a,Z,1,-,.,xn--,com}, negative families; "
+            "Latin-1 + a,1,-) in 1-3 label domains x 4 suffixes, every IDN TLD row in U- and A-form, all ASCII strings over {a,Z,1,-,.,xn--,com}, negative families, every Unicode scalar value as a label of its own and after a letter; "
             "non-trivial = multi-label generated domains (counted by the driver, pairwise distinct by construction)"),
       deadline=dict(quick=300, thorough=2400))
 
@@ -91,7 +91,7 @@ def build_shim(bdir, backend):
     return so
 
 def build_hist(bdir, step):
-    exe = BL.build_driver(bdir, 'drv/hist.c', 'plain', objs=[], libs=(), out=os.path.join(bdir, step['name']))
+    exe = BL.build_driver(bdir, 'drv/hist.c', 'plain', objs=[], libs=('-lidn2',), out=os.path.join(bdir, step['name']))
     args = []
     for be in step['backends']:
         args += ['--lib', build_shim(bdir, be)]
@@ -103,7 +103,9 @@ RULE_HIST = ("explicit-state BFS: a state is the canonical serialisation of the 
              "distinct_nontrivial = number of distinct states reached (plus, for C19, the fault runs)")
 check('C13', level='model_checking', steps=[dict(builder=build_hist, name='hist-c13', prop='C13', backends=['idn2']),
                                              dict(builder=build_hist, name='hist-c13-two-objects', prop='C13', backends=['idn2'], xargs=['--two-objects'])],
-      rule=RULE_HIST, deadline=dict(quick=240, thorough=2400),
+      rule=RULE_HIST + "; plus two complete pair products on real objects: every ordered pair of the 1296 addresses x@b.XY in 3 configurations, and every ordered pair of 150 feature addresses x every ordered pair "
+           "of the 8 (mode, tld_check) configurations on two objects and on one (mode switch in between), each second outcome compared with the fresh-library-state outcome",
+      deadline=dict(quick=240, thorough=2400),
       mc_keys=dict(states='states', transitions='transitions'), traces_key='histories_replayed')
 
 check('C19', level='fault_enumeration', steps=[dict(builder=build_hist, name='hist-c19', prop='C19', backends=['idn2'])],
@@ -177,7 +179,7 @@ check('C06', level='exploration', steps=[
 import c20cli
 check('C20', level='exploration', steps=[dict(kind='py', name='cli', fn=c20cli.run, replay=c20cli.replay)],
       rule=("files = all sequences of 0..k lines (k=2 quick, 3 thorough) over the line-shape menu x {LF, CRLF} per line x final newline present/absent, plus long-line files "
-            "(1023..8192 bytes, ASCII and multi-byte, one straddling byte 2048) and NUL-containing files; files are de-duplicated, so every file is distinct; non-trivial = files with at least one terminated line and > 2 bytes"),
+            "(1023..8192 bytes, ASCII and multi-byte, one straddling byte 2048; every line length within 6 of each power of two 128..4096; a 2-/3-/4-byte character at every offset 0..w+1 before each multiple of 256..8192) and NUL-containing files; files are de-duplicated, so every file is distinct; non-trivial = files with at least one terminated line and > 2 bytes"),
       deadline=dict(quick=300, thorough=2400))
 
 # ---------------------------------------------------------------------------
